@@ -149,7 +149,7 @@ func runStream(s *Stream, modelBin string, seed int64, n int, thorough bool, cor
 			sum.ModelErrors++
 		}
 		if answers[i] != c.Want {
-			sum.Disagreements = append(sum.Disagreements, Disagreement{s.Name, c.Human, c.Req, c.Want, answers[i], projectionsOf(c.Want, answers[i])})
+			sum.Disagreements = append(sum.Disagreements, Disagreement{s.Name, c.Human, c.Req, c.Want, answers[i], projectionsOf(c.Human, c.Want, answers[i])})
 		}
 	}
 	sum.Distinct = len(distinct)
@@ -235,27 +235,46 @@ func filterEvents(evs string, kind string) string {
 	return strings.Join(xs, " ")
 }
 
-// projectionsOf names which parts of an (ok <val> <events>) / (fail <class> <events>) /
-// (err <class>) answer differ between implementation and model.
-func projectionsOf(impl, model string) []string {
+// projectionsOf names which parts of an answer differ between implementation and model, by kind
+// of request (first word of the human form): run/vmrun/debug answers are (ok <val> <events>) /
+// (fail <class> <events>); check answers (ok <type> <annotated tree>) / (err <class>).
+func projectionsOf(human, impl, model string) []string {
+	kind := strings.SplitN(human, " ", 2)[0]
 	a, b := splitTop(impl), splitTop(model)
 	if len(a) < 1 || len(b) < 1 {
 		return []string{"all"}
 	}
-	var ps []string
-	headA, headB := a[0], b[0]
-	if headA != headB {
-		return []string{"class"}
-	}
-	switch headA {
-	case "ok", "fail":
+	switch kind {
+	case "check":
+		if a[0] != b[0] {
+			return []string{"accept"}
+		}
+		if a[0] == "err" {
+			return []string{"errclass"}
+		}
 		if len(a) != 3 || len(b) != 3 {
 			return []string{"all"}
 		}
-		if headA == "fail" && a[1] != b[1] {
+		var ps []string
+		if a[1] != b[1] {
+			ps = append(ps, "type")
+		}
+		if a[2] != b[2] {
+			ps = append(ps, "annot")
+		}
+		return ps
+	case "run", "vmrun":
+		if a[0] != b[0] {
+			return []string{"class"}
+		}
+		if (a[0] != "ok" && a[0] != "fail") || len(a) != 3 || len(b) != 3 {
+			return []string{"all"}
+		}
+		var ps []string
+		if a[0] == "fail" && a[1] != b[1] {
 			ps = append(ps, "class")
 		}
-		if headA == "ok" && a[1] != b[1] {
+		if a[0] == "ok" && a[1] != b[1] {
 			if skeleton(a[1]) != skeleton(b[1]) {
 				ps = append(ps, "skeleton")
 			}
@@ -267,15 +286,14 @@ func projectionsOf(impl, model string) []string {
 		if filterEvents(a[2], "print") != filterEvents(b[2], "print") {
 			ps = append(ps, "prints")
 		}
-		if filterEvents(a[2], "dbg") != filterEvents(b[2], "dbg") {
-			ps = append(ps, "dbg")
-		}
 		if len(ps) == 0 {
 			ps = []string{"all"}
 		}
 		return ps
-	case "err":
-		return []string{"class"}
+	case "vmcode":
+		return []string{"code"}
+	case "verify":
+		return []string{"verify"}
 	}
 	return []string{"all"}
 }
